@@ -87,7 +87,10 @@ void AddLineInfo(
         PNeu->Contents.FileName = FNum;
         PNeu->Contents.Space    = Space;
         PNeu->Contents.Address  = Address + z;
-        PNeu->Contents.Code     = ((CodeLen < z + 1) || (DontPrint)) ? 0 : WAsmCode[z];
+        PNeu->Contents.Code     = ((CodeLen < z + 1) || (DontPrint)
+                                   || ((size_t)(z + 1) * sizeof(Word) > (size_t)MaxCodeLen))
+                                        ? 0
+                                        : WAsmCode[z];
         if (z == 0) {
             PFirst = PNeu;
         }
